@@ -89,11 +89,12 @@ var tmpls = []Tmpl{
 }
 
 type Pkg struct {
-	Name  string            `json:"name"`
-	Desc  string            `json:"desc"`
-	Files map[string]string `json:"files"`
-	Names []string          `json:"names"` // Coq names that must be defined exactly once
-	NGo   int               `json:"ngo"`   // number of Go declaration units
+	Name      string            `json:"name"`
+	Desc      string            `json:"desc"`
+	Files     map[string]string `json:"files"`
+	Names     []string          `json:"names"`                // Coq names that must be defined exactly once
+	NGo       int               `json:"ngo"`                  // number of Go declaration units
+	MayReject bool              `json:"may_reject,omitempty"` // a conversion error is an acceptable answer for this package (edge of the subset)
 }
 
 func subst(s, self, target string) string {
@@ -138,6 +139,8 @@ func mkPkgs(tier string) []Pkg {
 	for _, b := range bases {
 		baseOf[b.Self] = b
 	}
+	head := "" // declarations pinned in a file that sorts first
+	mayReject := false
 	emit := func(desc string, units []string, names []string) {
 		n := len(units)
 		ps := perms(n)
@@ -171,8 +174,11 @@ func mkPkgs(tier string) []Pkg {
 					files[fn] = sb.String()
 					start = end
 				}
+				if head != "" {
+					files["0head.go"] = "package q\n\n" + head + "\n"
+				}
 				id++
-				out = append(out, Pkg{Name: fmt.Sprintf("q%05d", id), Desc: fmt.Sprintf("%s perm=%d layout=%s", desc, pi, lay.id), Files: files, Names: names, NGo: n})
+				out = append(out, Pkg{Name: fmt.Sprintf("q%05d", id), Desc: fmt.Sprintf("%s perm=%d layout=%s", desc, pi, lay.id), Files: files, Names: names, NGo: n, MayReject: mayReject})
 			}
 		}
 	}
@@ -205,6 +211,34 @@ func mkPkgs(tier string) []Pkg {
 	} else {
 		emit("special_shared_interface_conversion", []string{"type I interface {\n\tm() uint64\n}", "type St struct {\n\tv uint64\n}", "func (s St) m() uint64 {\n\treturn s.v\n}", "func use(i I) uint64 {\n\treturn i.m()\n}\n\nfunc f1() uint64 {\n\treturn use(St{v: 1})\n}\n\nfunc f2() uint64 {\n\treturn use(St{v: 2})\n}"}, []string{"I", "St", "St__m", "use", "f1", "f2", "St__to__I"})
 	}
+	// declaration groups: const ( ... ), var ( ... ), type ( ... ) define several names in one
+	// declaration; a user of the first, a middle and the last name, before and after the group
+	groups := []struct {
+		id, decl, use string
+		names         []string
+	}{
+		{"const", "const (\n\tCf uint64 = 1\n\tCm uint64 = 60 * Cf\n\tCl uint64 = 60 * Cm\n)", "func U$N() uint64 {\n\treturn $N + 1\n}", []string{"Cf", "Cm", "Cl"}},
+	}
+	for _, g := range groups {
+		for _, n := range g.names {
+			emit("special_group_"+g.id+"_user_of_"+n, []string{strings.ReplaceAll(g.use, "$N", n), g.decl}, append([]string{"U" + n}, g.names...))
+		}
+		emit("special_group_"+g.id+"_all_users", []string{strings.ReplaceAll(g.use, "$N", g.names[0]), strings.ReplaceAll(g.use, "$N", g.names[2]), g.decl}, append([]string{"U" + g.names[0], "U" + g.names[2]}, g.names...))
+	}
+	// several names in one spec (const A, B = 1, 2): every name defined once, or the package rejected
+	mayReject = true
+	for _, kw := range []string{"const", "var"} {
+		for _, n := range []string{"Mf", "Ml"} {
+			emit("special_multi_name_"+kw+"_spec_user_of_"+n, []string{"func U" + n + "() uint64 {\n\treturn " + n + " + 1\n}", kw + " Mf, Ml uint64 = 1, 2"}, []string{"U" + n, "Mf", "Ml"})
+		}
+		emit("special_multi_name_"+kw+"_spec_in_group", []string{"func UMl() uint64 {\n\treturn Ml + Mz\n}", kw + " (\n\tMf, Ml uint64 = 1, 2\n\tMz     uint64 = 3\n)"}, []string{"UMl", "Mf", "Ml", "Mz"})
+	}
+	mayReject = false
+	// an interface conversion needed by two functions one of which is called from a function declared earlier
+	// (types, method and the interface user are pinned first so that the known St__to__I / St__m ordering finding plays no part)
+	head = "type I interface {\n\tm() uint64\n}\n\ntype St struct {\n\tv uint64\n}\n\nfunc (s St) m() uint64 {\n\treturn s.v\n}\n\nfunc use(i I) uint64 {\n\treturn i.m()\n}\n"
+	emit("special_conversion_call_chain", []string{"func report() uint64 {\n\treturn total() + 1\n}", "func unitArea() uint64 {\n\treturn use(St{v: 1})\n}", "func total() uint64 {\n\ts := St{v: 2}\n\treturn use(s)\n}"}, []string{"I", "St", "St__m", "use", "report", "unitArea", "total", "St__to__I"})
+	head = ""
 	if tier == "thorough" {
 		// chains A -> B -> C
 		for _, t1 := range tmpls {
@@ -285,16 +319,23 @@ func globalsOf(e gl.Expr, out map[string]bool) {
 	}
 }
 
-func checkPkg(p Pkg, src string, present bool, stderr string) (kind, msg string) {
+type finding struct{ kind, msg string }
+
+// checkPkg returns every way in which the emitted file breaks the property
+// (each with its own key: one defect does not hide another in the same package).
+func checkPkg(p Pkg, src string, present bool, stderr string) (out []finding) {
+	if !present && p.MayReject {
+		return nil
+	}
 	if !present {
-		return "not-translated", "goose wrote no file for this package: " + firstLines(stderr, 6)
+		return []finding{{"not-translated", "goose wrote no file for this package: " + firstLines(stderr, 6)}}
 	}
 	f, err := gl.ParseFile(src)
 	if err != nil {
-		return "malformed", err.Error()
+		return []finding{{"malformed", err.Error()}}
 	}
 	if len(f.Bad) > 0 {
-		return "malformed", f.Bad[0].Err
+		return []finding{{"malformed", f.Bad[0].Err}}
 	}
 	count := map[string]int{}
 	pos := map[string]int{}
@@ -308,15 +349,17 @@ func checkPkg(p Pkg, src string, present bool, stderr string) (kind, msg string)
 			defs = append(defs, s)
 		}
 	}
+	reported := map[string]bool{}
 	for _, n := range p.Names {
 		if count[n] == 0 {
-			return "missing-definition(" + kindOfName(n) + ")", fmt.Sprintf("no definition named %s in the emitted file (have %v)", n, f.Order)
+			out = append(out, finding{"missing-definition(" + kindOfName(n) + ")", fmt.Sprintf("no definition named %s in the emitted file (have %v)", n, f.Order)})
 		}
-		if count[n] > 1 {
-			return "duplicate-definition(" + kindOfName(n) + ")", fmt.Sprintf("%s is defined %d times", n, count[n])
+		if count[n] > 1 && !reported[n] {
+			reported[n] = true
+			out = append(out, finding{"duplicate-definition(" + kindOfName(n) + ")", fmt.Sprintf("%s is defined %d times", n, count[n])})
 		}
 	}
-	if len(defs) != len(p.Names) {
+	if len(defs) != len(p.Names) && len(out) == 0 {
 		var extra []string
 		want := map[string]bool{}
 		for _, n := range p.Names {
@@ -327,7 +370,7 @@ func checkPkg(p Pkg, src string, present bool, stderr string) (kind, msg string)
 				extra = append(extra, d.Name)
 			}
 		}
-		return "extra-definition", fmt.Sprintf("%d definitions for %d declarations; unexpected: %v", len(defs), len(p.Names), extra)
+		out = append(out, finding{"extra-definition", fmt.Sprintf("%d definitions for %d declarations; unexpected: %v", len(defs), len(p.Names), extra)})
 	}
 	for i, d := range defs {
 		gs := map[string]bool{}
@@ -345,18 +388,30 @@ func checkPkg(p Pkg, src string, present bool, stderr string) (kind, msg string)
 				continue
 			}
 			if g == d.Name {
-				return "self-reference-through-global", fmt.Sprintf("%s mentions itself as a global identifier instead of its rec binder", d.Name)
+				out = append(out, finding{"self-reference-through-global", fmt.Sprintf("%s mentions itself as a global identifier instead of its rec binder", d.Name)})
+				continue
 			}
 			if j > i {
-				return "use-before-definition(" + kindOfName(g) + ")", fmt.Sprintf("%s (definition #%d) mentions %s, which is only defined later (definition #%d); order in the file: %v", d.Name, i+1, g, j+1, f.Order)
+				out = append(out, finding{"use-before-definition(" + kindOfName(g) + ")", fmt.Sprintf("%s (definition #%d) mentions %s, which is only defined later (definition #%d); order in the file: %v", d.Name, i+1, g, j+1, f.Order)})
 			}
 		}
 	}
-	return "", ""
+	// one finding per kind
+	seenKind := map[string]bool{}
+	var uniq []finding
+	for _, fd := range out {
+		if !seenKind[fd.kind] {
+			seenKind[fd.kind] = true
+			uniq = append(uniq, fd)
+		}
+	}
+	return uniq
 }
 
 func kindOfName(n string) string {
 	switch {
+	case strings.Contains(n, "__to__"):
+		return "conversion"
 	case strings.Contains(n, "__"):
 		return "method"
 	case strings.HasPrefix(n, "mk"):
@@ -454,13 +509,12 @@ func main() {
 		errText := string(out)
 		for _, p := range pkgs[i:j] {
 			b, rerr := os.ReadFile(filepath.Join(outDir, "c04mod", p.Name+".v"))
-			kind, msg := checkPkg(p, string(b), rerr == nil, errText)
 			acc.Add("evaluations", 1)
 			acc.Set("nontrivial", p.Name)
 			acc.Set("shapes", strings.SplitN(p.Desc, " ", 2)[0])
-			if kind != "" {
+			for _, fd := range checkPkg(p, string(b), rerr == nil, errText) {
 				shape := strings.SplitN(p.Desc, " ", 2)[0]
-				acc.Violate(ev.Violation{Key: fmt.Sprintf("C04/%s/%s/%s", shape, kind, strings.SplitN(p.Desc, " ", 2)[1]), Msg: fmt.Sprintf("package %s: %s\n%s", p.Desc, msg, renderPkg(p)), Replay: p})
+				acc.Violate(ev.Violation{Key: fmt.Sprintf("C04/%s/%s/%s", shape, fd.kind, strings.SplitN(p.Desc, " ", 2)[1]), Msg: fmt.Sprintf("package %s: %s\n%s", p.Desc, fd.msg, renderPkg(p)), Replay: p})
 			}
 			if *replay != "" {
 				fmt.Println(renderPkg(p))
